@@ -180,7 +180,7 @@ def run_c02(tier, seed):
     v.assumptions += ["components that need no escaping (token characters in names and query, arbitrary octets in bodies); framework additions (Host, User-Agent, Content-Length, Connection, empty Cookie header) are allowed",
                       "request bodies <= 16 KiB (the experimental client cannot resume a partial send)"]
     return _finish(v, work, counters, distinct, samples, stats,
-                   "real Experimental::Client <-> real Http::Endpoint on loopback: requests built with RequestBuilder (9 methods, path, 0-4 query parameters, 0-5 typed headers out of 10 types, 0-6 cookies, bodies 0..16000 arbitrary octets incl. empty / 1 byte / ending in CR) compared with what onRequest sees; responses (20 status codes, typed headers, cookies with/without attributes, fixed bodies 0..20000 octets or streams of 0-8 chunks across hex-length boundaries) compared with the Http::Response delivered to the client promise. distinct = (method, query, headers, cookies, body class, response kind, chunks, status class)")
+                   "real Experimental::Client <-> real Http::Endpoint on loopback: requests built with RequestBuilder (9 methods, path, 0-4 query parameters, 0-5 typed headers out of 10 types, 0-6 cookies, bodies 0..16000 arbitrary octets incl. empty / 1 byte / ending in CR) compared with what onRequest sees; responses (20 status codes, typed headers, cookies with/without attributes, fixed bodies 0..20000 octets or streams of 0-8 chunks across hex-length boundaries) compared with the Http::Response delivered to the client promise; in two thirds of the round trips every read of BOTH ends (server reading the request, client reading the response) is cut to at most 1..cap bytes, cap in {1,2,5,23,300,2000} (interposed recv: the segmentation that TCP on loopback never produces by itself). distinct = (method, query, headers, cookies, body class, response kind, chunks, status class)")
 
 def c05_client_requests(v, tier, seed, work):
     binary = vlib.build_harness("client", "plain")
